@@ -931,6 +931,13 @@ func (e BridgeEngine) genCallOut(r *Run, c *ChainSt, v *ChainView) (Tx, bool) {
 		memo = hex.EncodeToString([]byte("memo"))
 	}
 	to := ExtAddrStr(c.Name, w.Key("extuser", 20+r.Rng.IntN(5)).Hex())
+	if c.Name == "eth" && (r.Prop == "C05" || r.Prop == "C04" || r.Prop == "C06") && r.Pct(30) {
+		// through the cross-chain precompile, FX as msg.value, refund address often somebody else
+		if r.Pct(60) {
+			refund = w.Key("user", (u+1)%st.NUsers).Bech()
+		}
+		return Tx{K: "bridge_call_evm", S: KeyName("user", u), A: A("chain", c.Name, "to", w.Key("extuser", 20+r.Rng.IntN(5)).Hex().Hex(), "data", data, "memo", memo, "refund", refund, "value", 1000+r.Rng.IntN(90000)), Gas: 3_000_000}, true
+	}
 	return Tx{K: "bridge_call", S: KeyName("user", u), A: A("chain", c.Name, "coins", strings.Join(coins, ","), "to", to, "data", data, "memo", memo, "refund", refund)}, true
 }
 
